@@ -645,6 +645,121 @@ def _r17_9(res, P, cfgname):
             res.fail("R17.9", cfgname, key, "Memory::%s: init closure index not iterator-bounded by the allocated size (idx-ok=%s size-ok=%s)" % (name, ok, size_ok), span_loc(cl["sp"]))
 
 
+CLONE_FROM = "<dashu_int::repr::Repr as core::clone::Clone>::clone_from"
+
+
+def _r17_8c(res, P, cfgname):
+    """Repr::clone_from: (a) no leak — the inline overwrite of a possibly-heap destination is reached
+    only through deallocate_raw or an edge establishing |capacity(self)| <= 2 on the *absolute*
+    capacity; (b) the final sign fix-up depends on the current sign of self."""
+    from .c17 import capacity_roots, root_of
+    f = _find(P, CLONE_FROM)
+    if f is None:
+        res.anchor("R17.8", cfgname, "fn " + CLONE_FROM)
+        return
+    body = f["mir"]
+    S = sym.Sym(f)
+    cfg = mir.cfg_of(body)
+    # ---- (a)
+    targets = set()
+    for i, j, s in mir.iter_stmts(body):
+        if s["k"] == "as":
+            pr = s["p"].get("p", [])
+            if any(e.get("union") and e.get("n") == "inline" for e in pr):
+                targets.add(i)
+    dealloc = {bb for bb, t, fr in mir.iter_calls(body) if fr and (fr.get("rp") or fr["p"]) == "dashu_int::buffer::Buffer::deallocate_raw"}
+    good_edges = set()
+    for a, b, fact in S.edge_facts():
+        for c in guards.constraints(fact):
+            if c[0] != 'unary':
+                continue
+            X = sym.strip_casts(c[1])
+            txt = sym.term_str(X, 300)
+            absolute = ("sign_capacity" in txt or "Repr::capacity" in txt) and "NonZero" not in txt
+            if not absolute or ('arg', 1) not in capacity_roots(X):
+                continue
+            try:
+                if not any(c[2](v) for v in (3, 4, 1000, 1 << 40)):
+                    good_edges.add((a, b))
+            except Exception:
+                pass
+    key = "clone_from: inline overwrite only after dealloc or |capacity| <= 2"
+    if not targets or not dealloc:
+        res.anchor("R17.8", cfgname, key)
+    else:
+        seen = {0}
+        st = [0]
+        while st:
+            x = st.pop()
+            for y in cfg.succ[x]:
+                if (x, y) in good_edges or y in dealloc or y in seen:
+                    continue
+                seen.add(y)
+                st.append(y)
+        leak = targets & seen
+        if leak:
+            res.fail("R17.8", cfgname, key, "Repr::clone_from can overwrite a heap destination with inline data without freeing its buffer: the release is not guarded by the absolute capacity (a negative number has a negative capacity field) — memory leak", span_loc(f["sp"]))
+        else:
+            res.ok("R17.8", cfgname, key, sample=dict(function=f["p"], dealloc_sites=len(dealloc), abs_capacity_edges=len(good_edges)))
+    # ---- (b)
+    key = "clone_from: sign fix-up reads the current sign of self"
+    neg_blocks = []
+    for i, j, s in mir.iter_stmts(body):
+        if s["k"] == "as" and any(e.get("n") == "capacity" for e in s["p"].get("p", [])):
+            t = S.rvalue(s["rv"])
+            if any(isinstance(x, tuple) and x[0] == 'un' and x[1] == 'Neg' for x in sym.subterms(t)):
+                neg_blocks.append(i)
+    if not neg_blocks:
+        res.anchor("R17.7", cfgname, key)
+        return
+    ok = False
+    for nb in neg_blocks:
+        for sb, blk in enumerate(body["bbs"]):
+            t = blk["t"]
+            if t["k"] != "switch" or not cfg.dominates(sb, nb) or all(nb in cfg.reach_from(x) for x in cfg.succ[sb]):
+                continue
+            start = []
+            mir.walk_places(t["d"], lambda p: start.append(p["l"]))
+            locs, calls = mir.backward_slice(body, start)
+            for cb in calls:
+                tt = body["bbs"][cb]["t"]
+                cp = mir.callee_path(tt) or ""
+                if cp == "core::num::nonzero::NonZero::<T>::get" and "arg1" in sym.term_str(S.operand(tt["a"][0]), 100):
+                    ok = True
+            for i, j, s in mir.iter_stmts(body):
+                if s["k"] == "as" and s["p"]["l"] in locs and s["rv"]["k"] == "use":
+                    pl = mir.op_place(s["rv"]["a"])
+                    if pl and pl.get("p") and pl["p"][-1].get("k") == "f" and pl["p"][-1].get("i") == 1:
+                        base = S.local(pl["l"])
+                        if base[0] == 'call' and base[1].endswith("Repr::sign_capacity") and root_of(base[2][0]) == ('arg', 1):
+                            ok = True
+    if ok:
+        res.ok("R17.7", cfgname, key)
+    else:
+        res.fail("R17.7", cfgname, key, "Repr::clone_from negates `capacity` under a condition that does not read the current sign of self (only the absolute capacity): the copy gets the wrong sign whenever the destination was negative", span_loc(f["sp"]))
+
+
+def _r17_11(res, P, cfgname):
+    """Zeroize for Repr (feature zeroize): every path resets self to the canonical zero"""
+    f = _find(P, "dashu_int::third_party::zeroize::<impl zeroize::Zeroize for dashu_int::repr::Repr>::zeroize")
+    if f is None:
+        return
+    S = sym.Sym(f)
+    cfg = mir.cfg_of(f["mir"])
+    blocks = set()
+    for bb, t, fr in mir.iter_calls(f["mir"]):
+        cp = fr and (fr.get("rp") or fr["p"])
+        if cp == CLONE_FROM:
+            src = strip_bb(S.operand(t["a"][1]))
+            if any(isinstance(x, tuple) and x[0] == 'call' and x[1] == "dashu_int::repr::Repr::zero" for x in sym.subterms(src)):
+                blocks.add(bb)
+    key = "Zeroize for Repr resets to canonical zero on every path"
+    if blocks and cfg.must_pass(blocks):
+        res.ok("R17.7", cfgname, key)
+    else:
+        res.fail("R17.7", cfgname, key, "Zeroize for Repr has a path that wipes the words but keeps capacity and sign: an inline value becomes a non-canonical zero (negative zero / two-word zero)", span_loc(f["sp"]))
+
+
 def run(res, programs, tier):
     res.rule("R17.5", "every raw read/write/copy in Buffer is dominated by a release-surviving bound check implying its extent, or its extent equals the just-allocated size / the len field")
     res.rule("R17.6", "unsafe helpers guarded only by debug_assert! (highest_dword, lowest_dword, split_hi_word, shr_in_place_one_word): obligation pushed to call sites; shape-discharged or listed as assumed")
@@ -657,3 +772,5 @@ def run(res, programs, tier):
         _r17_6(res, P, P.name)
         _r17_7(res, P, P.name)
         _r17_9(res, P, P.name)
+        _r17_8c(res, P, P.name)
+        _r17_11(res, P, P.name)
